@@ -23,6 +23,7 @@ class Sched(object):
         self.preemptions = 0      # decisions that switched away from a thread that could have continued
         self.max_steps = max_steps
         self.blocked_someone = False
+        self.clock = None          # virtual clock (set by transports.World): lock time-outs expire on it
 
     def spawn(self, name, fn):
         w = {'ev': threading.Event(), 'state': 'ready', 'blocked_on': None}
@@ -52,22 +53,28 @@ class Sched(object):
             return
         self._yield(self.cur)
 
-    def block_on(self, lock):
+    def block_on(self, lock, deadline=None):
         name = self.cur
         w = self.workers[name]
         w['state'] = 'blocked'
         w['blocked_on'] = lock
+        w['deadline'] = deadline
         self.blocked_someone = True
         self._yield(name)
         w['state'] = 'ready'
         w['blocked_on'] = None
+        w['deadline'] = None
+
+    def _expired(self, w):
+        d = w.get('deadline')
+        return d is not None and self.clock is not None and self.clock.t >= d
 
     def run(self):
         steps = 0
         last = None
         while True:
             runnable = [n for n in self.order if self.workers[n]['state'] == 'ready' or
-                        (self.workers[n]['state'] == 'blocked' and self.workers[n]['blocked_on'].free_for(n))]
+                        (self.workers[n]['state'] == 'blocked' and (self.workers[n]['blocked_on'].free_for(n) or self._expired(self.workers[n])))]
             if not runnable:
                 if all(w['state'] == 'done' for w in self.workers.values()):
                     return
@@ -108,8 +115,19 @@ def make_lock_class(get_sched):
             if s is None or s.cur is None:
                 return self.real.acquire(blocking)
             s.yield_point('lock?')
+            if not blocking:
+                ok = self.real.acquire(blocking=False)
+                if ok:
+                    self.owner = s.cur
+                    self.depth += 1
+                return ok
+            deadline = None
+            if timeout is not None and timeout >= 0 and s.clock is not None:
+                deadline = s.clock.t + timeout
             while not self.real.acquire(blocking=False):
-                s.block_on(self)
+                if deadline is not None and s.clock.t >= deadline:
+                    return False          # a timed acquire gave up (virtual time)
+                s.block_on(self, deadline)
             self.owner = s.cur
             self.depth += 1
             return True
